@@ -561,15 +561,19 @@ func exprAsAssignmentConsumer(rootNode *RootAssertionNode, expr ast.Node, exprRH
 			case *ast.CallExpr:
 				// check if this is a call to a function by name
 				if ident := asthelper.FuncIdentFromCallExpr(expr); ident != nil {
-					obj := rootNode.ObjectOf(ident).(*types.Func)
-					if obj.Type().(*types.Signature).Results().Len() != 1 {
-						return nil, errors.New("multiply returning function treated as assignment consumer")
+					// The identifier does not have to denote a declared function: it can also be a
+					// type (a conversion, e.g., `S(x)[0] = v`) or a function-typed variable (e.g.,
+					// `fvar()[0] = v`). Those are handled by the type-based cases below.
+					if obj, ok := rootNode.ObjectOf(ident).(*types.Func); ok {
+						if obj.Type().(*types.Signature).Results().Len() != 1 {
+							return nil, errors.New("multiply returning function treated as assignment consumer")
+						}
+						return &annotation.FuncRetAssignDeep{
+							TriggerIfDeepNonNil: &annotation.TriggerIfDeepNonNil{
+								Ann: annotation.RetKeyFromRetNum(obj, 0),
+							},
+						}, nil
 					}
-					return &annotation.FuncRetAssignDeep{
-						TriggerIfDeepNonNil: &annotation.TriggerIfDeepNonNil{
-							Ann: annotation.RetKeyFromRetNum(obj, 0),
-						},
-					}, nil
 				}
 			case *ast.IndexExpr:
 				return exprAsAssignmentConsumer(rootNode, expr.X, exprRHS)
